@@ -2457,7 +2457,10 @@ def translate() -> tuple[str, dict]:
             return True
         if isinstance(e, ast.Call) and ast.unparse(e.func) in ('EntityDef.engine_def', 'EntityDef'):
             return True
-        if isinstance(e, ast.Subscript) and isinstance(e.value, ast.Attribute) and isinstance(e.value.value, ast.Name) and e.value.value.id in db:
+        base = e                      # any chain of attribute / subscript loads below such a local: ent_type.kv, ent_type.kv[k], kvs[k]
+        while isinstance(base, (ast.Attribute, ast.Subscript)):
+            base = base.value
+        if base is not e and isinstance(base, ast.Name) and base.id in db:
             return True
         return False
     db_names: set[str] = set()
@@ -2479,7 +2482,7 @@ def translate() -> tuple[str, dict]:
             if isinstance(n.ctx, ast.Store):
                 if not (isinstance(par, ast.Assign) and _db_source(par.value, db_names)):
                     db_other.append('re-bound from elsewhere: ' + where)
-            elif isinstance(par, ast.Attribute) and par.value is n and isinstance(par.ctx, ast.Load):
+            elif isinstance(par, (ast.Attribute, ast.Subscript)) and par.value is n and isinstance(par.ctx, ast.Load):
                 top: ast.AST = par            # climb the chain of loads x.a[b].c ...: a call of a method anywhere on it may mutate
                 gp = parent.get(id(top))
                 while isinstance(gp, (ast.Attribute, ast.Subscript)) and gp.value is top and isinstance(gp.ctx, ast.Load):
